@@ -128,7 +128,10 @@ theorem C01_read_record_of_params {F} (env : Env F) (strict : Bool) (ps : List (
     attribute, an INTEGER token of the grammar (optional sign, digits) whose value fits `long` and is not the in-band
     null `LONG_MAX`, an entity reference `#digits` (forward or backward) to an instance the manager holds and whose type
     conforms to the attribute's entity type, an aggregate (LIST/SET/BAG/ARRAY) of INTEGER with any number of elements
-    (including none) and any layout around every element — each with any layout before and after -/
+    (including none) and any layout around every element, a STRING literal of the grammar (every control directive in
+    any position, e.g. `'see \S\''`), `.ITEM.` of an ENUMERATION / BOOLEAN / LOGICAL attribute for a declared item (either
+    letter case), a BINARY `"hex"`, a REAL token of the grammar whose denotation converts (`FloatOps.ofDecimal`) to a double
+    other than the in-band null — each with any layout before and after -/
 inductive Covered {F} (env : Env F) : Param F → Prop where
   | dollar (a : AttrD) (hopt : a.optional = true) (hder : a.derived = false) (hred : a.redefining = false)
       (before after : List Byte) (hb : Seps before) (ha : Seps after) :
@@ -151,9 +154,28 @@ inductive Covered {F} (env : Env F) : Param F → Prop where
       (es : List ElemP) (inner : List Byte) (hok : ∀ e ∈ es, ElemOK e) (hin : Seps inner)
       (before after : List Byte) (hb : Seps before) (ha : Seps after) :
       Covered env { a := a, v := .aggr (es.map elemVal), tok := aggrText es inner, before := before, after := after }
+  | string (a : AttrD) (hty : a.ty = .one .string) (hder : a.derived = false) (hred : a.redefining = false)
+      (b : List Byte) (hb : StringBody b) (before after : List Byte) (hbf : Seps before) (ha : Seps after) :
+      Covered env { a := a, v := .one (.atom (.str (39 :: (b ++ [39])))), tok := 39 :: (b ++ [39]),
+                    before := before, after := after }
+  | enum (a : AttrD) (ty : ElemTy) (hty : a.ty = .one ty) (het : EnumTy ty) (hder : a.derived = false)
+      (hred : a.redefining = false) (name : List Byte) (i : Nat) (hne : name ≠ []) (hname : name.all pw = true)
+      (hfind : findName (enumKindOf ty).table (name.map toUpper) = some i) (hset : (enumKindOf ty).isUnsetIdx i = false)
+      (before after : List Byte) (hbf : Seps before) (ha : Seps after) :
+      Covered env { a := a, v := .one (.atom (.enum i)), tok := 46 :: (name ++ [46]), before := before, after := after }
+  | binary (a : AttrD) (hty : a.ty = .one .binary) (hder : a.derived = false) (hred : a.redefining = false)
+      (hex : List Byte) (hne : hex ≠ []) (hhex : hex.all isXDigit = true)
+      (before after : List Byte) (hbf : Seps before) (ha : Seps after) :
+      Covered env { a := a, v := .one (.atom (.bin hex)), tok := 34 :: (hex ++ [34]), before := before, after := after }
+  | real (a : AttrD) (hty : a.ty = .one .real) (hder : a.derived = false) (hred : a.redefining = false)
+      (tok : List Byte) (dec : Decimal) (v : F) (htok : isReal tok = true) (hden : denoteReal tok = some dec)
+      (hv : env.ops.ofDecimal dec = some v) (hnn : env.ops.isRealNull v = false)
+      (hbuf : env.lex.realBuf = 0 ∨ tok.length < env.lex.realBuf)
+      (before after : List Byte) (hbf : Seps before) (ha : Seps after) :
+      Covered env { a := a, v := .one (.atom (.real v)), tok := tok, before := before, after := after }
 
-/-- **read (render p ℓ) = p for records over the covered kinds** (`_partial`: REAL/NUMBER/STRING/BINARY/ENUMERATION/
-    BOOLEAN/LOGICAL tokens, aggregates of other element types, selects are *not* covered by this theorem — for them `ParamOK` is a
+/-- **read (render p ℓ) = p for records over the covered kinds** (`_partial`: NUMBER attributes, aggregates of
+    element types other than INTEGER, selects are *not* covered by this theorem — for them `ParamOK` is a
     hypothesis of `C01_read_record_of_params`; they are tied by correspondence only).  Every dictionary, every reader
     configuration in which `CheckRemainingInput` and the aggregate element loops skip comments, every layout, any number of parameters. -/
 theorem C01_read_record_partial {F} (env : Env F) (strict : Bool) (hcfg : env.lex.criSkipsComments = true)
@@ -171,6 +193,14 @@ theorem C01_read_record_partial {F} (env : Env F) (strict : Bool) (hcfg : env.le
     exact ParamOK.ref env strict hcfg a tg hty hder hred ds hne hds hhi hfound before after hb ha
   | aggrInt a hty hder hred es inner hok hin before after hb ha =>
     exact ParamOK.aggrInt env strict hcfg hagg a hty hder hred es inner hok hin before after hb ha
+  | string a hty hder hred b hb before after hbf ha =>
+    exact ParamOK.string env strict hcfg a hty hder hred b hb before after hbf ha
+  | enum a ty hty het hder hred name i hne hname hfind hset before after hbf ha =>
+    exact ParamOK.enum env strict hcfg a ty hty het hder hred name i hne hname hfind hset before after hbf ha
+  | binary a hty hder hred hex hne hhex before after hbf ha =>
+    exact ParamOK.binary env strict hcfg a hty hder hred hex hne hhex before after hbf ha
+  | real a hty hder hred tok dec v htok hden hv hnn hbuf before after hbf ha =>
+    exact ParamOK.real env strict hcfg a hty hder hred tok dec v htok hden hv hnn hbuf before after hbf ha
 
 /-- the hypotheses are satisfiable: `( /* c */ -17 /**/ , $ )` for (INTEGER, OPTIONAL REAL) -/
 def exI : AttrD := { name := "i", ty := .one .integer, optional := false }
